@@ -151,6 +151,11 @@ def run_main(argv, trigger=None, stdin=None, close_stdin_at_end=True, keep_input
     pq.PcfgQueue.next = rec_next
     cs.CrackingSession._save_session = rec_save
     old_input, old_argv = builtins.input, sys.argv
+    old_exit = os._exit
+    def _exit(code=0):
+        # a tool that ends the process the hard way must not take the harness with it: in-process it is an ordinary exit
+        raise SystemExit(code)
+    os._exit = _exit
     builtins.input = st
     sys.argv = ['pcfg_guesser.py'] + list(argv)
     err, out = io.StringIO(), io.StringIO()
@@ -170,6 +175,7 @@ def run_main(argv, trigger=None, stdin=None, close_stdin_at_end=True, keep_input
         pq.PcfgQueue.next = orig_next
         cs.CrackingSession._save_session = orig_save
         sys.argv = old_argv
+        os._exit = old_exit
         if close_stdin_at_end:
             st.close()
             for t in ctx.kthreads():
